@@ -78,6 +78,8 @@ PredefName(cfg, c, id) ==
     IN IF own # {} THEN (CHOOSE e \in own : TRUE).n
        ELSE IF all # {} THEN (CHOOSE e \in all : TRUE).n
        ELSE "?none"
+\* predefined names of the alphabets / generators that are wildcard filters (TLC cannot scan a string)
+WildPredefNames == {"w/#", "w/+"}
 PredefHas(cfg, c, id) == \E e \in Range(cfg.predef) : e.id = id /\ e.c \in {c, "*"}
 PredefIds(cfg, c, n) == {id \in {e.id : e \in Range(cfg.predef)} : PredefHas(cfg, c, id) /\ PredefName(cfg, c, id) = n}
 
@@ -248,7 +250,7 @@ PublishLegalWhenDisconnected(s, p) == ~s.cfg.auth /\ p.qos = 3 /\ p.tit \in {1, 
 
 DoPublish(s, p) ==
     LET name == Resolve(s, p)
-        bad  == name = "?none" \/ (p.tit = 2 /\ p.swild)
+        bad  == name = "?none" \/ (p.tit = 2 /\ p.swild) \/ (p.tit = 1 /\ name \in WildPredefNames)
         m    == [Mq0 EXCEPT !.t = "PUBLISH", !.topic = name, !.pl = p.data, !.retain = p.retain,
                             !.dup = p.dup, !.qos = IF p.qos = 3 THEN 0 ELSE p.qos,
                             !.mid = IF p.qos \in {1, 2} THEN p.mid ELSE 0]
